@@ -71,9 +71,14 @@ class _World(object):
             if not isinstance(a, bytes) or not isinstance(b, bytes):
                 raise Raised("TypeError", ())
             return a == b
-        ev = MiniEval(ctx.repo, ctx.folder, fi, symbolic=("hashes.Hash", "hashes.SHA256", "default_backend", "hashlib.sha256"),
+        def sha256(*data):
+            # hashlib's one-shot form: the constructor argument is the first update
+            for d_ in data:
+                w.updates.append(d_)
+            return ("<sym>", "hashlib.sha256", (), ())
+        ev = MiniEval(ctx.repo, ctx.folder, fi, symbolic=("hashes.Hash", "hashes.SHA256", "default_backend"),
                       stubs={"os.urandom": urandom, "secrets.token_bytes": urandom, "scrypt.Scrypt": Scrypt, "Scrypt": Scrypt, "constant_time.bytes_eq": bytes_eq,
-                             "hmac.compare_digest": bytes_eq})
+                             "hmac.compare_digest": bytes_eq, "hashlib.sha256": sha256, "sha256": sha256})
         ev.symbolic_methods = True
         ev.method_stubs = {"derive": derive, "verify": verify, "update": update}
         return ev
